@@ -25,3 +25,55 @@ Proof. intros. repeat split; reflexivity. Qed.
 Lemma hb_step_is_exec : forall auto next s, (next <=? s)%N = true ->
   hb_step auto next s = (true, fst (hb_exec (fun x => (x + auto)%N) hb_order_step next None)).
 Proof. intros auto next s H. unfold hb_step. rewrite H. reflexivity. Qed.
+
+(* ---------- the test "is a snapshot due": regenerated comparison operator *)
+Definition cmpN (c : hb_cmp) (a b : N) : bool :=
+  match c with
+  | CmpLe => (a <=? b)%N | CmpEq => (a =? b)%N | CmpGe => (b <=? a)%N | CmpLt => (a <? b)%N | CmpGt => (b <? a)%N
+  end.
+
+(* all models of this development (Model.hb_step: <=?, CadenceNum.hb_thr: nleb) assume "threshold <= current value";
+   on the current source this is what all three branches test *)
+Lemma thresholds_compared_with_le :
+  hb_cmp_interval = CmpLe /\ hb_cmp_step = CmpLe /\ hb_cmp_walltime = CmpLe.
+Proof. repeat split; reflexivity. Qed.
+
+(* heartbeats at ARBITRARY successive steps_done values xs: integrate() calls with manual step()/steps(k) or phases
+   without an attached archive in between.  Result: steps_done of the snapshots written, final next_step *)
+Fixpoint hb_seq (c : hb_cmp) (auto next : N) (xs : list N) : list N * N :=
+  match xs with
+  | [] => ([], next)
+  | x :: r => if cmpN c next x
+              then let '(out, fin) := hb_seq c auto (next + auto)%N r in (x :: out, fin)
+              else hb_seq c auto next r
+  end.
+
+(* overdue => written at the first opportunity: a heartbeat that finds the threshold in the past (the simulation moved
+   past it without a heartbeat) writes the snapshot now, and keeps the original grid (next_step advances by auto) *)
+Lemma overdue_written_at_once : forall auto next x r, (next <= x)%N ->
+  exists out fin, hb_seq hb_cmp_step auto next (x :: r) = (x :: out, fin) /\
+                  hb_seq hb_cmp_step auto (next + auto)%N r = (out, fin).
+Proof.
+  intros auto next x r H. cbn [hb_seq]. unfold hb_cmp_step, cmpN.
+  rewrite (proj2 (N.leb_le next x) H).
+  destruct (hb_seq CmpLe auto (next + auto)%N r) as [out fin]. exists out, fin. split; reflexivity.
+Qed.
+
+Lemma not_due_no_snapshot : forall auto next x r, (x < next)%N ->
+  hb_seq hb_cmp_step auto next (x :: r) = hb_seq hb_cmp_step auto next r.
+Proof.
+  intros auto next x r H. cbn [hb_seq]. unfold hb_cmp_step, cmpN.
+  rewrite (proj2 (N.leb_gt next x) H). reflexivity.
+Qed.
+
+(* on consecutive heartbeats (one integrate() call) hb_seq is the hb_run of Model.v / cadence_step *)
+Fixpoint nseq (s : N) (n : nat) : list N := match n with O => [] | S n' => s :: nseq (s + 1)%N n' end.
+Lemma hb_seq_consecutive : forall auto n next s, fst (hb_seq hb_cmp_step auto next (nseq s n)) = hb_run auto next s n.
+Proof.
+  intros auto. induction n as [|n IH]; intros next s; [reflexivity|].
+  cbn [nseq hb_seq hb_run]. unfold hb_step, hb_cmp_step, cmpN.
+  destruct (next <=? s)%N.
+  - specialize (IH (next + auto)%N (s + 1)%N). unfold hb_cmp_step in IH.
+    destruct (hb_seq CmpLe auto (next + auto)%N (nseq (s + 1)%N n)) as [out fin]. cbn [fst app] in *. rewrite IH. reflexivity.
+  - cbn [app]. apply IH.
+Qed.
